@@ -870,13 +870,25 @@ func (vm *vm) throw(v interface{}) {
 	}
 }
 
+// handleRecovered is handleThrow for a value recovered from a Go panic, i.e. outside the run() loop: if an
+// uncatchable error (interrupt, stack overflow) is raised while handleThrow closes the iterators, that panic leaves
+// handleThrow at the frame of a handler and no recover of this level would unwind to the marker frame.
+func (vm *vm) handleRecovered(x interface{}) (ex *Exception) {
+	defer func() {
+		if x1 := recover(); x1 != nil {
+			ex = vm.handleThrow(x1)
+		}
+	}()
+	return vm.handleThrow(x)
+}
+
 func (vm *vm) try(f func()) (ex *Exception) {
 	vm.pushTryFrame(tryPanicMarker, -1)
 	defer vm.popTryFrame()
 
 	defer func() {
 		if x := recover(); x != nil {
-			ex = vm.handleThrow(x)
+			ex = vm.handleRecovered(x)
 		}
 	}()
 
@@ -899,7 +911,7 @@ func (vm *vm) runTry() (ex *Exception) {
 func (vm *vm) runTryInner() (ex *Exception) {
 	defer func() {
 		if x := recover(); x != nil {
-			ex = vm.handleThrow(x)
+			ex = vm.handleRecovered(x)
 		}
 	}()
 
